@@ -208,6 +208,30 @@ func (n *Node) Down() bool {
 
 var errNodeDown = status.Error(constant.CodeNodeIsNotLeader, "harness: node is down")
 
+// AppliedOffset reads the commit offset stored in the node's database (what it has applied), -1 if unknown.
+func (n *Node) AppliedOffset() (res int64) {
+	res = -1
+	defer func() { _ = recover() }() // the database may be closed at this very moment
+	k := n.KV()
+	if k == nil {
+		return res
+	}
+	_, v, closer, err := k.Get("__oxia/commit-offset", kv.ComparisonEqual)
+	if err != nil {
+		return res
+	}
+	defer closer.Close()
+	se := &proto.StorageEntry{}
+	if se.UnmarshalVT(v) != nil {
+		return res
+	}
+	var x int64
+	if _, err := fmt.Sscanf(string(se.Value), "%d", &x); err == nil {
+		res = x
+	}
+	return res
+}
+
 func (n *Node) Wal() wal.Wal { return n.WalF.Wal(n.c.Shard) }
 func (n *Node) KV() kv.KV    { return n.KVF.KV(n.c.Shard) }
 
@@ -271,12 +295,17 @@ func (n *Node) Truncate(req *proto.TruncateRequest) (*proto.TruncateResponse, er
 	if n.Down() {
 		return nil, errNodeDown
 	}
+	appliedBefore := n.AppliedOffset()
 	follower, err := n.Director.GetOrCreateFollower(req.Namespace, req.Shard, req.Term)
 	if err != nil {
 		return nil, err
 	}
 	res, err := follower.Truncate(req)
 	if err == nil {
+		if res.HeadEntryId.Offset < appliedBefore {
+			// entries this node had already applied to its database were cut off its log
+			n.c.Log(Event{Kind: "truncate-below-applied", Node: n.Name, Term: req.Term, Offset: res.HeadEntryId.Offset, Aux: appliedBefore})
+		}
 		n.c.Log(Event{Kind: "truncate-ok", Node: n.Name, Term: req.Term, Offset: res.HeadEntryId.Offset})
 	} else {
 		n.c.Log(Event{Kind: "truncate-err", Node: n.Name, Term: req.Term, Note: err.Error()})
